@@ -763,6 +763,8 @@ class Container:
             amount_to_add = Unit.convert(source, quantity, 'U')
         else:
             amount_to_add = Unit.convert(source, quantity, config.moles_storage_unit)
+        if amount_to_add < -10 ** -config.internal_precision:
+            raise ValueError("Quantity to add must not be negative.")
         if _exceeds(self.volume + volume_to_add, self.max_volume):
             raise ValueError("Exceeded maximum volume")
         self.volume = round(self.volume + volume_to_add, config.internal_precision)
@@ -1467,6 +1469,8 @@ class Container:
                                for substance, value in self.contents.items() if not substance.is_enzyme())
 
         required_quantity = quantity - current_quantity
+        if required_quantity < 0 and math.isclose(quantity, current_quantity, rel_tol=1e-12):
+            required_quantity = 0.0  # already filled to quantity, up to floating point noise
         result = self._add(solvent, f"{required_quantity} {quantity_unit}")
         required_volume = Unit.convert(solvent, f"{required_quantity} {quantity_unit}", 'L')
         required_volume, unit = Unit.get_human_readable_unit(required_volume, 'L')
